@@ -53,6 +53,51 @@ def _handler_calls_error(h: ast.ExceptHandler) -> bool:
     return False
 
 
+def _yaml_constructor_foreign_raises() -> List[Tuple[str, str]]:
+    """(constructor method, callee) pairs of the installed PyYAML SafeConstructor: calls of int()/float()/datetime
+    constructors on document text that are not inside a handler for ValueError.  With an explicit tag
+    (`!!int abc`, `!!timestamp 2001-99-99`) the implicit resolver's regular expression does not protect them:
+    the ValueError leaves yaml.load as it is, outside the YAMLError hierarchy."""
+    import os
+
+    from .yamlmodel import yaml_dir
+
+    with open(os.path.join(yaml_dir(), "constructor.py")) as f:
+        tree = ast.parse(f.read())
+    cls = [n for n in tree.body if isinstance(n, ast.ClassDef) and n.name == "SafeConstructor"]
+    if not cls:
+        raise AnalysisError("PyYAML SafeConstructor not found in the installed source")
+    registered = set()
+    for n in tree.body:
+        if isinstance(n, ast.Expr) and isinstance(n.value, ast.Call) and dotted(n.value.func) == "SafeConstructor.add_constructor" and len(n.value.args) == 2:
+            d = dotted(n.value.args[1])
+            if d and d.startswith("SafeConstructor."):
+                registered.add(d.split(".")[1])
+    if len(registered) < 8:
+        raise AnalysisError("PyYAML SafeConstructor registrations not found (expected >= 8 add_constructor calls)")
+    raisers = {"int", "float", "complex", "datetime.date", "datetime.datetime", "datetime.timedelta", "datetime.timezone", "datetime.time"}
+    out = []
+    for m in cls[0].body:
+        if not isinstance(m, ast.FunctionDef) or m.name not in registered:
+            continue
+        for c in [x for x in ast.walk(m) if isinstance(x, ast.Call)]:
+            d = dotted(c.func)
+            if d not in raisers or not c.args or all(isinstance(a, ast.Constant) for a in c.args):
+                continue
+            protected = False
+            p = getattr(c, "_jv_parent", None)
+            # constructor.py is parsed without parent links: search enclosing try statements by containment
+            for t in [x for x in ast.walk(m) if isinstance(x, ast.Try)]:
+                if any(c is y for b in t.body for y in ast.walk(b)):
+                    for h in t.handlers:
+                        names = exc_expr_names(h.type) if h.type is not None else ["BaseException"]
+                        if any(nm.split(".")[-1] in ("ValueError", "Exception", "BaseException") for nm in names):
+                            protected = True
+            if not protected:
+                out.append((m.name, d))
+    return sorted(set(out))
+
+
 def _yaml_exception_classes() -> Dict[str, List[str]]:
     """class name -> base names, for every class of the installed PyYAML that derives from YAMLError (read from source)."""
     import os
@@ -365,6 +410,31 @@ def run(ctx: Ctx) -> int:
                 raised_by_load = {k for k in yaml_classes if k in ("ReaderError", "ScannerError", "ParserError", "ComposerError", "ConstructorError", "MarkedYAMLError", "YAMLError")}
                 missing = sorted(raised_by_load - covered)
                 ctx.oblige("C03.R5", not missing, c, f"yaml mode anticipates the root of PyYAML's exception hierarchy ({sorted(named & set(yaml_classes))} covers {len(covered)} classes)" if not missing else f"yaml mode anticipates only {sorted(named & set(yaml_classes))}: yaml.load can also raise {missing}, which would escape every handler built on get_loader_exceptions()", fn=gle, construct="yaml exception root")
+                # ... and what PyYAML's constructors raise outside that hierarchy is anticipated or converted
+                foreign = _yaml_constructor_foreign_raises()
+                yl = ctx.func("_loaders_dumpers:yaml_load")
+                ylc = [x for x in calls_in(yl) if call_name(x) == "yaml.load"]
+                ctx.need(ylc, "yaml_load: yaml.load(...)")
+                converted = False
+                for t, part in enclosing_trys(ylc[0]):
+                    if part != "body":
+                        continue
+                    for h in t.handlers:
+                        hn = handler_type_names(h)
+                        if any(x.split(".")[-1] in ("ValueError", "Exception") for x in hn):
+                            rz_ = [r for r in ast.walk(h) if isinstance(r, ast.Raise) and isinstance(r.exc, ast.Call)]
+                            if rz_ and all(call_leaf(r.exc) in covered for r in rz_):
+                                converted = True
+                ok = not foreign or converted or bool({"ValueError", "Exception"} & named)
+                ctx.oblige(
+                    "C03.R5",
+                    ok,
+                    ylc[0],
+                    f"ValueError raised by PyYAML's constructors for explicitly tagged scalars ({', '.join(f'{m_}:{d_}' for m_, d_ in foreign[:4])}) is {'converted to a YAMLError inside yaml_load' if converted else 'anticipated by the yaml mode'}" if ok else f"yaml.load can raise ValueError outside the YAMLError hierarchy ({', '.join(f'{m_} calls {d_}()' for m_, d_ in foreign[:4])} on explicitly tagged text such as `!!int abc`): neither anticipated by the yaml mode nor converted in yaml_load, it escapes the parse methods as a raw ValueError",
+                    fn=yl,
+                    construct="yaml constructor ValueError",
+                    details={"foreign": foreign},
+                )
             else:
                 ok = "JSONDecodeError" in named or "ValueError" in named
                 ctx.oblige("C03.R5", ok, c, "json mode anticipates JSONDecodeError" if ok else f"json mode anticipates {sorted(named)}, not JSONDecodeError", fn=gle, construct="json exception root")
